@@ -115,11 +115,11 @@ Qed.
 
 Ltac gsolve H9 H10 H11 :=
   repeat split; auto; intros; try discriminate; try exact Logic.I; try congruence;
-  try (cbn; lia);
   try (eapply col_rel_colors; [eassumption|intros E'; first [reflexivity|discriminate E'|assumption|congruence]]);
   try (apply H11; assumption);
   try (match goal with E : _ = 16 |- _ => destruct (H10 E); assumption end);
-  try (match goal with E : _ = 1 |- _ => destruct (H9 E); assumption end).
+  try (match goal with E : _ = 1 |- _ => destruct (H9 E); assumption end);
+  try (cbn; lia).
 
 Lemma L_fg_none : G_rel (mkSgi None bg c b u k so cs dc fi bi) (mkRA None rb rbo rul rbl rrv) cs0 dc0.
 Proof.
@@ -314,13 +314,13 @@ Proof.
     + unfold attr_at. cbn [r_fg r_bg r_bold r_ul r_blink r_rev is_none andb]. destruct (negb (rbo || rul || rbl || rrv)); reflexivity.
     + exists 16777216. split; [right; right; reflexivity|reflexivity].
   - assert (16 <> 16777216) as N by discriminate. destruct (H11 N) as [Hfi Hbi]. destruct (H10 eq_refl) as [Lf Lb].
-    eval_cmp. unfold col_rel, below, col_ok in *.
+    clear H9 H10 H11 N H12 H13. eval_cmp. unfold col_rel, below, col_ok in *.
     destruct fg as [n|], rf as [c|]; try contradiction; destruct bg as [m|], rb as [e|]; try contradiction;
       try (rewrite (Hfi ltac:(discriminate)) in H1; destruct H1 as [R1 ->]);
       try (rewrite (Hbi ltac:(discriminate)) in H2; destruct H2 as [R2 ->]);
       destruct rbo; cbn [andb bind fst snd]; lia_cmp0; cbn [bind fst snd]; fin_low rul rbl rrv 16.
   - assert (256 <> 16777216) as N by discriminate. destruct (H11 N) as [Hfi Hbi].
-    eval_cmp. unfold col_rel, below, col_ok in *.
+    clear H9 H10 H11 N H12 H13. eval_cmp. unfold col_rel, below, col_ok in *.
     destruct fg as [n|], rf as [c|]; try contradiction; destruct bg as [m|], rb as [e|]; try contradiction;
       try (rewrite (Hfi ltac:(discriminate)) in H1; destruct H1 as [R1 ->]);
       try (rewrite (Hbi ltac:(discriminate)) in H2; destruct H2 as [R2 ->]);
